@@ -7,6 +7,7 @@ CONSTANTS
   MaxOps = 4
   MaxDeletes = 1
   Coords = {"A", "X"}
+  MaxRestores = 1
   GetDs = {}
 VIEW MCView
 CHECK_DEADLOCK FALSE
